@@ -60,6 +60,8 @@ pub enum OpKind {
     CreateNow(Comps),
     CreateIterNow(u8),
     BuilderDropped(Comps),
+    /// a panic unwinds through an unfinished `World::create_entity()` builder (cancellation)
+    BuilderUnwound(Comps),
     CreateDeferred { via: Via, comps: Comps, dropped: bool },
     CreateIterDeferred(u8),
     DeleteNow(H),
